@@ -159,3 +159,72 @@ Example rule_line_example :
   = Some (u "<http://ex.org/r/a%20b> <http://ex.org/p> ""Ann O\""Hara""@en <http://ex.org/g/a%20b>").
 Proof. vm_compute. reflexivity. Qed.
 Print Assumptions rule_line_example.
+
+(* END TO END, REFERENCING OBJECT MAPS INCLUDED (C01 + C07): documents whose object maps are constants / references /
+   templates or referencing object maps with join conditions (each predicate-object map of one kind).  The statements the
+   engine materialises are exactly those of the generation rules: a referencing object map contributes, for every pair
+   (child row, parent row) of the two delivered tables that agree on all join conditions (NULL never matches), subject,
+   predicate and graph from the child row and the parent's subject term from the parent row -- for every document, every
+   pair of tables, both output formats.  Hypotheses: the decidable fragment predicates of Model/Fragment.v (triples-map
+   identifiers and rule identifiers are unique, every referencing object map names a triples map of the document and is
+   not one of those the parser rewrites away), every referenced column is delivered, and no data column is named like a
+   parent_ column of the merge. *)
+From Morph Require Import Model.Fragment Proofs.JoinRuleP Proofs.DocJoinP.
+Theorem document_rules_with_joins_are_rule_table_rules : forall scfg fe tables d0 rules,
+  forallb jplain_tm d0 = true -> nodupb (map t_id d0) = true -> parents_ok d0 = true -> normalise d0 = Ok rules -> nodupb (map r_id rules) = true ->
+  forall x, In x (spec_lines scfg fe d0 tables) <->
+    (exists rl sr, In rl rules /\ r_asserted rl = true /\ r_ok rl <> KParent /\ In sr (tables (r_src rl)) /\ doc_rule_line scfg rl sr = Some x) \/
+    (exists rl q csr psr, In rl rules /\ r_asserted rl = true /\ r_ok rl = KParent /\ find_rule rules (r_ov rl) = Some q /\
+        In csr (tables (r_src rl)) /\ In psr (tables (r_src q)) /\ conds_hold scfg csr psr (r_ojoin rl) = true /\
+        doc_join_line scfg rl (r_sk q) (r_sv q) csr psr = Some x).
+Proof. exact doc_spec_is_rule_spec2. Qed.
+Print Assumptions document_rules_with_joins_are_rule_table_rules.
+Theorem engine_document_with_joins_is_generation_rules_document : forall cfg fe scfg raw,
+  cfg_agree cfg scfg -> c_nquads cfg = s_nquads scfg -> s_na scfg = c_na cfg ->
+  forall d0 rules l,
+    forallb jplain_tm d0 = true -> nodupb (map t_id d0) = true -> parents_ok d0 = true -> normalise d0 = Ok rules -> nodupb (map r_id rules) = true ->
+    (forall rl, In rl rules -> simple_rule rl \/ join_rule_ok rules rl) ->
+    (forall rl rw n, In rl rules -> In rw (raw (r_src rl)) -> In n (rule_names rl ++ child_names rl ++ joins_child (r_ojoin rl)) -> assoc n rw <> None) ->
+    (forall src rw k, In rw (raw src) -> assoc (parent_prefix ++ k) rw = None) ->
+    materialize_rules cfg fe rules (delivered cfg raw) = Ok l ->
+    forall x, In x l <-> In x (spec_lines scfg fe d0 (spec_tables raw)).
+Proof. exact engine_document_is_spec_document_joins. Qed.
+Print Assumptions engine_document_with_joins_is_generation_rules_document.
+Theorem joins_fragment_is_decidable : forall d0, theorem_applies_joins d0 = true ->
+  forallb jplain_tm d0 = true /\ nodupb (map t_id d0) = true /\ parents_ok d0 = true /\
+  exists rules, normalise d0 = Ok rules /\ nodupb (map r_id rules) = true /\ forall rl, In rl rules -> simple_rule rl \/ join_rule_ok rules rl.
+Proof. exact theorem_applies_joins_ok. Qed.
+Print Assumptions joins_fragment_is_decidable.
+
+(* non-vacuity: employees and their departments in two tables; a duplicated key on the parent side, a NULL key and an
+   unmatched key on the child side; a graph map on the child's subject map; both output formats *)
+Definition dj : document :=
+  [{| t_id := u "#Emp"; t_src := u "E"; t_nonasserted := false; t_subj := tmx KTempl "http://e/emp/{id}"; t_sjoins := [];
+      t_classes := [u "http://e/Emp"]; t_sgraphs := [tmx KTempl "http://e/g/{id}"];
+      t_poms := [{| p_preds := [tmx KConst "http://e/worksIn"];
+                    p_objs := [{| o_tm := mk_tmap KParent (u "#Dept") CkIri None; o_lang := None; o_dt := None; o_joins := [(u "dept", u "code")] |}]; p_graphs := [] |};
+                 {| p_preds := [tmx KConst "http://e/name"];
+                    p_objs := [{| o_tm := tmx KRef "name"; o_lang := None; o_dt := None; o_joins := [] |}]; p_graphs := [] |}] |};
+   {| t_id := u "#Dept"; t_src := u "D"; t_nonasserted := false; t_subj := tmx KTempl "http://e/dept/{code}/{site}"; t_sjoins := [];
+      t_classes := []; t_sgraphs := [];
+      t_poms := [{| p_preds := [tmx KConst "http://e/site"];
+                    p_objs := [{| o_tm := tmx KRef "site"; o_lang := None; o_dt := None; o_joins := [] |}]; p_graphs := [] |}] |}].
+Definition rawj (src : ustr) : list rawrow :=
+  if ueqb src (u "E")
+  then [[(u "id", CStr (u "1")); (u "name", CStr (u "Ann")); (u "dept", CStr (u "a"))];
+        [(u "id", CStr (u "2")); (u "name", CStr (u "Bob")); (u "dept", CNone)];
+        [(u "id", CStr (u "3")); (u "name", CStr (u "Cy")); (u "dept", CStr (u "zz"))]]
+  else [[(u "code", CStr (u "a")); (u "site", CStr (u "x"))]; [(u "code", CStr (u "a")); (u "site", CStr (u "y"))]; [(u "code", CStr (u "b")); (u "site", CStr (u "x"))]].
+Example end_to_end_join_example : forall nq,
+  theorem_applies_joins dj = true /\
+  match normalise dj with
+  | Ok rules => match materialize_rules (cfgx nq) fex rules (delivered (cfgx nq) rawj) with
+                | Ok l => length l = 11%nat /\ forallb (fun x => mem x (spec_lines (scfgx nq) fex dj (spec_tables rawj))) l = true
+                          /\ length (spec_lines (scfgx nq) fex dj (spec_tables rawj)) = 11%nat
+                          /\ mem (u "<http://e/emp/1> <http://e/worksIn> <http://e/dept/a/y>" ++ (if nq then u " <http://e/g/1>" else [])) l = true
+                | Err _ => False
+                end
+  | Err _ => False
+  end.
+Proof. intros [|]; vm_compute; repeat split; reflexivity. Qed.
+Print Assumptions end_to_end_join_example.
